@@ -488,8 +488,98 @@ def c10(pid, tier, work, replay):
         "atomic VipPool endpoints that explains every reply, every instruction sent to an agent and the complete final state")
 
 
+def event_check(pid, tier, work, module, cfg, mc, runs, rule, assumptions, race_pid=None):
+    """Drivers that record event traces (one event per line), validated by a trace specification."""
+    t0 = time.time()
+    bins = set(b for _, b, _, _ in runs)
+    C.build(set({"vipsim": "sim", "vipreal": "real", "viprace": "race"}[b] for b in bins) | {"sim"})
+    mcs = [C.model_check(m, c, work) for m, c in mc]
+    for m in mcs:
+        C.log("model check %s/%s: %d distinct states, %d generated, %.1fs" % (m["module"], m["cfg"], m["states"], m["transitions"], m["wall_s"]))
+    classes, samples = set(), []
+    nlines = ntr = 0
+
+    def one(run):
+        name, binary, args, focus = run
+        tp = os.path.join(work, name + ".ndjson")
+        st = os.path.join(work, name + ".status")
+        _, status, rc, out = C.run_sim({}, work, name, binary=binary, args=[a.replace("@TRACE", tp).replace("@STATUS", st).replace("@WORK", work) for a in args])
+        job = Job(name, None, module, cfg, focus, binary=binary)
+        job.trace = tp
+        if "WARNING: DATA RACE" in out and (C.REPO + "/") in out:
+            i = out.index("WARNING: DATA RACE")
+            job.race_text = out[i:i + 1500]
+            rp = os.path.join(work, name + ".race.txt")
+            open(rp, "w").write(out[i:i + 6000])
+            job.race_report = rp
+        if status != "OK":
+            if "panic:" in out or "fatal error:" in out:
+                job.crash = out[-3000:]
+                return job
+            raise C.Machinery("driver %s did not finish: status=%r rc=%d\n%s" % (name, status, rc, out[-3000:]))
+        ok, matched, total, tout = C.validate_trace(module, cfg, tp, work, focus=focus)
+        job.accepted, job.matched, job.lines = ok, matched, total
+        return job
+
+    with cf.ThreadPoolExecutor(max_workers=8) as ex:
+        done = list(ex.map(one, runs))
+    for j in done:
+        if getattr(j, "crash", None):
+            rp = C.save_replay(pid, [], "the code under test crashed while driver %s ran:\n%s" % (j.name, j.crash))
+            write(pid, tier, mcs, ntr, nlines, classes, samples, rule, assumptions, t0, None, violations=1)
+            raise C.Violation("the code under test crashed (panic / fatal error) during %s: %s" % (j.name, j.crash[-400:]), rp)
+        if getattr(j, "race_report", None) and race_pid == pid:
+            rp = C.save_replay(pid, [j.race_report], j.race_text)
+            write(pid, tier, mcs, ntr, nlines, classes, samples, rule, assumptions, t0, None, violations=1)
+            raise C.Violation("the race detector reported a data race during %s:\n%s" % (j.name, j.race_text), rp)
+        if not j.accepted:
+            note = explain_reject(j, work)
+            rp = C.save_replay(pid, [j.trace], note)
+            write(pid, tier, mcs, ntr, nlines, classes, samples, rule, assumptions, t0, None, violations=1)
+            raise C.Violation(note, rp)
+        ntr += 1
+        nlines += j.lines
+        with open(j.trace) as f:
+            cur = []
+            for line in f:
+                ln = json.loads(line)
+                classes.add((ln.get("ev"), ln.get("kind", ""), ln.get("err", "") != "", ln.get("tok", "").count("/")))
+                if len(cur) < 14:
+                    cur.append({k: v for k, v in ln.items() if k not in ("bad", "badamt", "i")})
+            if len(samples) < 3:
+                samples.append(cur)
+        C.log("trace %s: %d events accepted (%s)" % (j.name, j.lines, module))
+    write(pid, tier, mcs, ntr, nlines, classes, samples, rule, assumptions, t0, None)
+    return 0
+
+
+def c14(pid, tier, work, replay):
+    s = C.seed()
+    runs = []
+    nseeds = sized(tier, 4, 40)
+    for i in range(nseeds):
+        for transport in ("mem", "fifo", "pipe"):
+            for lazy in ("0", "1"):
+                runs.append(("c14-%s-%s-%d" % (transport, lazy, i), "vipsim",
+                             ["rpcstress", str(s * 100 + i), "3", str(sized(tier, 8, 20)), transport, lazy, "@TRACE", "@STATUS"], "fake"))
+    for i in range(sized(tier, 2, 20)):
+        for lazy in ("0", "1"):
+            runs.append(("c14-race-%s-%d" % (lazy, i), "viprace",
+                         ["rpcstress", str(s * 100 + 50 + i), sized(tier, "6", "8"), str(sized(tier, 15, 60)), "pipe", lazy, "@TRACE", "@STATUS"], "real"))
+    return event_check(
+        pid, tier, work, "VipRpcTrace", "VipRpcTrace.cfg", [("VipRpcMC", "VipRpcMC.cfg")], runs,
+        "2x3 (faketime) and 2x8 (race build) concurrent callers with unique tokens on both ends of one connection, nested call-backs of depth 0-2, "
+        "cancellation before / after the request was sent, replies held back until after the cancellation, over an in-memory transport that "
+        "delivers in arbitrary order, a FIFO one and net.Pipe, with and without a pre-built Client; every call / send / recv / handle / cancel / "
+        "return event must be a step of VipRpc; distinct = (event kind, message kind, error?, nesting depth)",
+        ["events are logged under one lock: the codec wrapper logs a message before it is written and after it is read",
+         "the faketime runs use one P (interleaving at blocking points); real parallelism is covered by the race-build runs"],
+        race_pid="C14")
+
+
 CHECKS = {
     "C10": c10,
+    "C14": c14,
     "C13": c13,
     "C19": c19,
     "PXX": pxx,
